@@ -214,11 +214,73 @@ func zzC06NewConc(seed int64) (c *zzC06Conc) {
 	c.ips["v4b"] = fmt.Sprintf("198.51.100.%d", 101+rng.Intn(100))
 	c.ips["v6a"] = fmt.Sprintf("2001:db8::%x", 1+rng.Intn(0xfffe))
 	c.ips["v6b"] = fmt.Sprintf("2001:db8:1::%x", 1+rng.Intn(0xfffe))
-	for k, v := range c.ips {
-		c.rev[netip.MustParseAddr(v).String()] = k
-	}
+	zzC06RareAddrs(c.ips, rng)
+	zzC06Cur = c
 
 	return c
+}
+
+// zzC06RareAddrs completes the seeded choice of concrete addresses with the
+// rare but legal ones: "v6m" is always an IPv4-mapped IPv6 address (an AAAA
+// value: the family of an entry is that of the text written), and in some runs
+// "v6a" is the loopback or the unspecified address and "v4b" is 0.0.0.0.
+func zzC06RareAddrs(ips map[string]string, rng *rand.Rand) {
+	ips["v6m"] = fmt.Sprintf("::ffff:203.0.113.%d", 1+rng.Intn(200))
+	switch rng.Intn(4) {
+	case 1:
+		ips["v6a"] = "::1"
+	case 2:
+		ips["v6a"] = "::"
+	}
+
+	if rng.Intn(3) == 0 {
+		ips["v4b"] = "0.0.0.0"
+	}
+}
+
+// zzC06SpellIP writes an address in another legal spelling: IPv6 in upper-case
+// hex, in the full form without zero compression, or both; an IPv4-mapped
+// address with an upper-case prefix, a hexadecimal tail or an uncompressed
+// prefix.  IPv4 has only one spelling.
+func zzC06SpellIP(canonical string, variant int) (s string) {
+	a, err := netip.ParseAddr(canonical)
+	if err != nil || a.Is4() {
+		return canonical
+	}
+
+	if variant < 0 {
+		variant = -variant
+	}
+
+	s = canonical
+	switch {
+	case a.Is4In6():
+		b := a.As16()
+		switch variant % 4 {
+		case 1:
+			s = "::FFFF:" + a.Unmap().String()
+		case 2:
+			s = fmt.Sprintf("::ffff:%x:%x", uint16(b[12])<<8|uint16(b[13]), uint16(b[14])<<8|uint16(b[15]))
+		case 3:
+			s = "0:0:0:0:0:ffff:" + a.Unmap().String()
+		}
+	default:
+		switch variant % 4 {
+		case 1:
+			s = strings.ToUpper(canonical)
+		case 2:
+			s = a.StringExpanded()
+		case 3:
+			s = strings.ToUpper(a.StringExpanded())
+		}
+	}
+
+	if b, perr := netip.ParseAddr(s); perr != nil || b != a {
+		// Not a spelling of the same address after all.
+		return canonical
+	}
+
+	return s
 }
 
 func (c *zzC06Conc) ip(a string) (s string) {
@@ -229,13 +291,33 @@ func (c *zzC06Conc) ip(a string) (s string) {
 	return a
 }
 
+// abs is the canonical text of an observed address.  Observed and expected
+// addresses are compared in this form (see concrete): the abstract ids of the
+// vectors are made concrete, literal addresses (traces) stand for themselves.
 func (c *zzC06Conc) abs(a netip.Addr) (s string) {
-	if s, ok := c.rev[a.String()]; ok {
-		return s
-	}
-
 	return a.String()
 }
+
+// concrete maps expected addresses (abstract ids or literals) to canonical
+// concrete text, sorted.
+func (c *zzC06Conc) concrete(ips []string) (r []string) {
+	r = []string{}
+	for _, ip := range ips {
+		t := c.ip(ip)
+		if a, err := netip.ParseAddr(t); err == nil {
+			t = a.String()
+		}
+
+		r = append(r, t)
+	}
+
+	sort.Strings(r)
+
+	return r
+}
+
+// zzC06Cur is the concretisation of the running test (one per process).
+var zzC06Cur *zzC06Conc
 
 // zzC06OtherCase writes a name so that every label differs in case from its
 // lower-case form (every label of the harness's names starts with a letter or
@@ -266,7 +348,7 @@ func (c *zzC06Conc) rewrite(e *zzC06Entry) (rw *LegacyRewrite) {
 	ans := ""
 	switch e.K {
 	case "ip4", "ip6":
-		ans = c.ip(e.IP)
+		ans = zzC06SpellIP(c.ip(e.IP), e.DS)
 	case "A", "AAAA":
 		ans = e.K
 	default:
@@ -349,13 +431,14 @@ func zzC06Admissible(outs []zzC06Out, g *zzC06Got) (ok bool) {
 			return true
 		}
 
-		if zzC06Name(o.Canon) != g.Canon || len(o.IPs) != len(g.IPs) {
+		want := zzC06Cur.concrete(o.IPs)
+		if zzC06Name(o.Canon) != g.Canon || len(want) != len(g.IPs) {
 			continue
 		}
 
 		same := true
-		for j := range o.IPs {
-			same = same && o.IPs[j] == g.IPs[j]
+		for j := range want {
+			same = same && want[j] == g.IPs[j]
 		}
 
 		if same {
@@ -742,8 +825,8 @@ func TestZZVerifC06Replay(t *testing.T) {
 var (
 	zzC06BLabels = []string{"k", "m", "z", "srv", "n1", "dev", "p-q"}
 	zzC06BTLDs   = []string{"net", "lan", "io"}
-	zzC06BV4     = []string{"10.0.0.1", "10.0.0.2", "172.16.5.9", "203.0.113.200"}
-	zzC06BV6     = []string{"fd00::1", "fd00::2", "2001:db8:ffff::53"}
+	zzC06BV4     = []string{"10.0.0.1", "10.0.0.2", "172.16.5.9", "203.0.113.200", "0.0.0.0"}
+	zzC06BV6     = []string{"fd00::1", "fd00::2", "2001:db8:ffff::53", "::ffff:10.1.2.3", "::1", "::"}
 )
 
 func zzC06BPick(rng *rand.Rand, ss []string) (s string) { return ss[rng.Intn(len(ss))] }
